@@ -53,10 +53,11 @@ type C19Cell struct {
 	Devs     map[int]R19 `json:"devs"` // 1-based request index -> answer
 	Shots    int         `json:"shots"`
 	DebugLog bool        `json:"debug"`
+	Trace    bool        `json:"trace,omitempty"` // httptrace.dump and httptrace.trace switched on
 }
 
 func (c C19Cell) Name() string {
-	return fmt.Sprintf("c19|%s|longdef=%v|devs=%v|shots=%d|debug=%v", c.Gun, c.LongDef, c.Devs, c.Shots, c.DebugLog)
+	return fmt.Sprintf("c19|%s|longdef=%v|devs=%v|shots=%d|debug=%v|trace=%v", c.Gun, c.LongDef, c.Devs, c.Shots, c.DebugLog, c.Trace)
 }
 
 type timeoutErr struct{}
@@ -226,6 +227,9 @@ func (r *c19run) scenario(x *vs.X) func(end, msg string) error {
 	gconf := phttp.DefaultHTTPGunConfig()
 	gconf.Target = "127.0.0.1:80"
 	gconf.TargetResolved = "127.0.0.1:80"
+	if c.Trace {
+		gconf.HTTPTrace.DumpEnabled, gconf.HTTPTrace.TraceEnabled = true, true
+	}
 	cc := func(phttp.ClientConfig, string) phttp.Client {
 		if c.Gun == "http2" {
 			// the http2 guns' client: fatal only when the target has no HTTP/2
@@ -354,8 +358,12 @@ func c19cells(thorough bool) []C19Cell {
 			out = append(out, C19Cell{Gun: gun, LongDef: long, Shots: shots})
 			out = append(out, C19Cell{Gun: gun, LongDef: long, Shots: shots, DebugLog: true})
 			for pos := 1; pos <= shots*per; pos++ {
-				for _, a := range alts {
+				for ai, a := range alts {
 					out = append(out, C19Cell{Gun: gun, LongDef: long, Shots: shots, Devs: map[int]R19{pos: a}})
+					if long && pos <= per && (a.Conn != "ok" || ai%5 == 0) {
+						// request dumping / tracing switched on: every failure kind and a sample of the answers
+						out = append(out, C19Cell{Gun: gun, LongDef: long, Shots: shots, Devs: map[int]R19{pos: a}, Trace: true})
+					}
 				}
 			}
 		}
